@@ -36,7 +36,16 @@ const POINT_A: &str = "gossip.stream.after_liveness_check";
 const POINT_W: &str = "gossip.stream.before_write_lock";
 const POINT_B: &str = "gossip.stream.after_new_guard";
 const POINT_C: &str = "gossip.stream.before_insert_senders";
-const POINT_DROP: &str = "gossip.guard.drop.after_fetch_sub";
+/// as-found code: after the decrement, taken by every counted drop
+const POINT_DROP_OLD: &str = "gossip.guard.drop.after_fetch_sub";
+/// repaired code: only if the counter arrived at zero, under the counter mutex
+const POINT_DROP: &str = "gossip.guard.drop.before_unsubscribe";
+
+/// How long a stream() call that is expected to be blocked on the counter mutex is watched for
+/// progress before the harness goes on. A call that really is blocked never progresses, so this
+/// wait never changes a verdict on code that blocks; on code that does not block, a call that
+/// is slower than this is merely scheduled later (one of the legal interleavings).
+const BLOCKED_WATCH: Duration = Duration::from_millis(40);
 
 /// How long the harness waits for an event that the step just taken must produce. Only a
 /// failure detector ("the code is blocked where neither specification nor harness expect it");
@@ -60,8 +69,10 @@ struct CtlState {
     mailbox: VecDeque<Mail>,
     /// total number of messages that ever arrived
     arrived: u64,
-    /// drop threads parked inside `TopicDropGuard::drop`: handle -> released?
-    drop_parked: HashMap<String, bool>,
+    /// drop threads parked inside `TopicDropGuard::drop`: handle -> (point, released?)
+    drop_parked: HashMap<String, (String, bool)>,
+    /// drop threads that are through
+    drop_done: BTreeSet<String>,
     /// schedule points are ignored (used to wind a behaviour down)
     free_run: bool,
 }
@@ -102,6 +113,22 @@ impl Ctl {
     }
 }
 
+impl Ctl {
+    /// Watches for `pred` for at most `dur`; `true` if it came to hold.
+    async fn watch(&self, dur: Duration, pred: impl Fn(&CtlState) -> bool) -> bool {
+        let mut rx = self.ver.subscribe();
+        let deadline = tokio::time::Instant::now() + dur;
+        loop {
+            if pred(&self.lock()) {
+                return true;
+            }
+            if tokio::time::timeout_at(deadline, rx.changed()).await.is_err() {
+                return pred(&self.lock());
+            }
+        }
+    }
+}
+
 tokio::task_local! {
     static PROC: String;
 }
@@ -130,7 +157,7 @@ fn install_controllers(ctl: &Arc<Ctl>) {
     })));
     let c = ctl.clone();
     p2panda_core::verif::set_blocking_controller(Some(Arc::new(move |name: &'static str| {
-        if name != POINT_DROP {
+        if name != POINT_DROP && name != POINT_DROP_OLD {
             return;
         }
         let Some(id) = DROP_ID.with(|d| d.borrow().clone()) else {
@@ -140,9 +167,9 @@ fn install_controllers(ctl: &Arc<Ctl>) {
         if st.free_run {
             return;
         }
-        st.drop_parked.insert(id.clone(), false);
+        st.drop_parked.insert(id.clone(), (name.to_string(), false));
         c.bump();
-        while !st.drop_parked.get(&id).copied().unwrap_or(true) && !st.free_run {
+        while !st.drop_parked.get(&id).map(|p| p.1).unwrap_or(true) && !st.free_run {
             st = c.cv.wait(st).unwrap_or_else(|e| e.into_inner());
         }
         st.drop_parked.remove(&id);
@@ -204,7 +231,7 @@ enum Held {
 }
 
 impl Held {
-    fn counter(&self) -> (usize, usize) {
+    fn counter(&self) -> (usize, Option<usize>) {
         match self {
             Held::Handle(h) => h.verif_counter(),
             Held::Subscription(s) => s.verif_counter(),
@@ -217,10 +244,10 @@ impl Held {
 struct Obs {
     pc: BTreeMap<String, String>,
     hst: BTreeMap<String, String>,
-    /// live handles: name -> (counter name, counter value)
-    live: BTreeMap<String, (String, usize)>,
-    /// `Err` = write-locked, `Ok(None)` = no entry, else (counter name, value)
-    senders: Result<Option<(String, usize)>, ()>,
+    /// live handles: name -> (counter name, counter value; None = counter mutex held elsewhere)
+    live: BTreeMap<String, (String, Option<usize>)>,
+    /// `Err` = write-locked, `Ok(None)` = no entry, else (counter name, value or None = mutex held)
+    senders: Result<Option<(String, Option<usize>)>, ()>,
     mailbox: Vec<(String, String)>,
     session: String,
     orphans: BTreeSet<String>,
@@ -229,14 +256,15 @@ struct Obs {
 impl Obs {
     fn to_json(&self) -> Value {
         let senders = match &self.senders {
-            Err(()) => json!({"locked": true, "ctr": "none", "val": -1}),
-            Ok(None) => json!({"locked": false, "ctr": "none", "val": -1}),
-            Ok(Some((c, v))) => json!({"locked": false, "ctr": c, "val": v}),
+            Err(()) => json!({"locked": true, "mlocked": false, "ctr": "none", "val": -1}),
+            Ok(None) => json!({"locked": false, "mlocked": false, "ctr": "none", "val": -1}),
+            Ok(Some((c, Some(v)))) => json!({"locked": false, "mlocked": false, "ctr": c, "val": v}),
+            Ok(Some((c, None))) => json!({"locked": false, "mlocked": true, "ctr": c, "val": -1}),
         };
         json!({
             "pc": self.pc,
             "hst": self.hst,
-            "live": self.live.iter().map(|(h, (c, v))| (h.clone(), json!({"ctr": c, "val": v}))).collect::<BTreeMap<_, _>>(),
+            "live": self.live.iter().map(|(h, (c, v))| (h.clone(), json!({"ctr": c, "val": v.map(|x| x as i64).unwrap_or(-1)}))).collect::<BTreeMap<_, _>>(),
             "senders": senders,
             "mailbox": self.mailbox.iter().map(|(t, by)| json!({"t": t, "by": by})).collect::<Vec<_>>(),
             "session": self.session,
@@ -260,6 +288,9 @@ struct World {
     made_guard: BTreeSet<String>,
     /// stream() calls whose future was dropped half-way
     cancelled: BTreeSet<String>,
+    /// stream() calls that were started / released while the counter of the senders entry was
+    /// locked and did not get anywhere: process -> "mutexR" | "mutexW"
+    blocked: BTreeMap<String, String>,
     tasks: HashMap<String, tokio::task::JoinHandle<()>>,
     held: BTreeMap<String, Held>,
     hst: BTreeMap<String, String>,
@@ -324,6 +355,7 @@ impl World {
             returned: BTreeSet::new(),
             made_guard: BTreeSet::new(),
             cancelled: BTreeSet::new(),
+            blocked: BTreeMap::new(),
             tasks: HashMap::new(),
             held: BTreeMap::new(),
             hst,
@@ -363,7 +395,7 @@ impl World {
         let done: Vec<String> = st
             .finished
             .iter()
-            .filter(|(_, r)| r.is_ok())
+            .filter(|(p, r)| r.is_ok() && !self.blocked.contains_key(*p))
             .map(|(p, _)| p.clone())
             .collect();
         for p in done {
@@ -404,6 +436,9 @@ impl World {
                 "idle".to_string()
             } else if self.cancelled.contains(p) {
                 "cancelled".to_string()
+            } else if let Some(b) = self.blocked.get(p) {
+                // whatever the call did after the mutex was released is seen at its Resume step
+                b.clone()
             } else if self.returned.contains(p) {
                 "returned".to_string()
             } else if let Some((point, _)) = st.parked.get(p) {
@@ -504,6 +539,32 @@ impl World {
             .await
     }
 
+    /// The counter of the senders entry is locked by another thread right now.
+    fn entry_counter_locked(&self) -> bool {
+        matches!(self.gossip().verif_senders_counter(self.topic), Ok(Some((_, None))))
+    }
+
+    /// After a stream() call was started or released: waits until it parks, returns or sends
+    /// Subscribe. If the counter of the senders entry was locked when the step was taken, the
+    /// call is expected to sit in `try_clone()`: it is watched for a bounded time and, if it
+    /// got nowhere, recorded as blocked.
+    async fn settle_or_block(&mut self, p: &str, arrived_before: u64, locked: bool, state: &str) -> Result<(), String> {
+        if !locked {
+            return self.wait_proc_settled(p, arrived_before).await;
+        }
+        let name = p.to_string();
+        let progressed = self
+            .ctl
+            .watch(BLOCKED_WATCH, |st| {
+                st.parked.contains_key(&name) || st.finished.contains_key(&name) || st.arrived > arrived_before
+            })
+            .await;
+        if !progressed {
+            self.blocked.insert(p.to_string(), state.to_string());
+        }
+        Ok(())
+    }
+
     fn release(&self, p: &str, expect_point: &str) -> Result<(), String> {
         let mut st = self.ctl.lock();
         match st.parked.remove(p) {
@@ -521,7 +582,7 @@ impl World {
     }
 
     /// Executes one step on the real code. `Err` = the step could not be taken as described.
-    async fn apply(&mut self, a: &str, p: &str, k: &str, split_drop: bool) -> Result<(), String> {
+    async fn apply(&mut self, a: &str, p: &str, k: &str) -> Result<(), String> {
         let arrived_before = self.ctl.lock().arrived;
         match a {
             "ReadSenders" => {
@@ -529,6 +590,7 @@ impl World {
                     return Err(format!("stream() of {p} already called"));
                 }
                 self.started.insert(p.to_string());
+                let locked = self.entry_counter_locked();
                 let gossip = self.gossip().clone();
                 let topic = self.topic;
                 let ctl = self.ctl.clone();
@@ -539,15 +601,25 @@ impl World {
                     ctl.bump();
                 }));
                 self.tasks.insert(p.to_string(), task);
-                self.wait_proc_settled(p, arrived_before).await?;
+                self.settle_or_block(p, arrived_before, locked, "mutexR").await?;
             }
             "CloneGuard" => {
                 self.release(p, POINT_A)?;
                 self.wait_proc_settled(p, arrived_before).await?;
             }
             "AcquireWrite" => {
+                let locked = self.entry_counter_locked();
                 self.release(p, POINT_W)?;
+                self.settle_or_block(p, arrived_before, locked, "mutexW").await?;
+            }
+            "ResumeRead" | "ResumeWrite" => {
+                // nothing to release: the call goes on by itself once the drop is through
+                let want = if a == "ResumeRead" { "mutexR" } else { "mutexW" };
+                if self.blocked.get(p).map(|b| b.as_str()) != Some(want) {
+                    return Err(format!("stream() of {p} is not blocked on the counter mutex ({want})"));
+                }
                 self.wait_proc_settled(p, arrived_before).await?;
+                self.blocked.remove(p);
             }
             "CallSubscribe" => {
                 self.release(p, POINT_B)?;
@@ -618,30 +690,37 @@ impl World {
                 let Some(held) = self.held.remove(p) else {
                     return Err(format!("{p} is not a live handle"));
                 };
-                if split_drop {
-                    // fetch_sub returns the previous value: the drop sends Unsubscribe iff it was 1
-                    let (_, prev) = held.counter();
-                    let id = p.to_string();
-                    let th = std::thread::spawn(move || {
-                        DROP_ID.with(|d| *d.borrow_mut() = Some(id));
-                        drop(held);
-                    });
-                    self.drop_threads.insert(p.to_string(), th);
-                    let id = p.to_string();
-                    self.ctl
-                        .wait_until("drop to reach the point after fetch_sub", |st| {
-                            st.drop_parked.contains_key(&id)
-                        })
-                        .await?;
-                    if prev == 1 {
-                        self.hst.insert(p.to_string(), "fetched".into());
-                    } else {
-                        // the rest of this drop is local
+                // every drop runs on a thread of its own: it parks inside `drop` if it is the one
+                // that sends Unsubscribe (and, in the as-found code, after every decrement)
+                let (_, prev) = held.counter();
+                let id = p.to_string();
+                let ctl = self.ctl.clone();
+                let th = std::thread::spawn(move || {
+                    DROP_ID.with(|d| *d.borrow_mut() = Some(id.clone()));
+                    drop(held);
+                    ctl.lock().drop_done.insert(id);
+                    ctl.bump();
+                });
+                self.drop_threads.insert(p.to_string(), th);
+                let id = p.to_string();
+                self.ctl
+                    .wait_until("drop to park before Unsubscribe or to finish", |st| {
+                        st.drop_parked.contains_key(&id) || st.drop_done.contains(&id)
+                    })
+                    .await?;
+                let parked_at = self.ctl.lock().drop_parked.get(p).map(|x| x.0.clone());
+                match parked_at {
+                    None => {
+                        // through without sending anything
                         self.finish_drop(p)?;
                     }
-                } else {
-                    drop(held);
-                    self.hst.insert(p.to_string(), "dropped".into());
+                    Some(point) if point == POINT_DROP_OLD && prev != Some(1) => {
+                        // as-found code: the rest of this drop is local
+                        self.finish_drop(p)?;
+                    }
+                    Some(_) => {
+                        self.hst.insert(p.to_string(), "fetched".into());
+                    }
                 }
             }
             "SendUnsub" => {
@@ -662,7 +741,7 @@ impl World {
         {
             let mut st = self.ctl.lock();
             if let Some(flag) = st.drop_parked.get_mut(h) {
-                *flag = true;
+                flag.1 = true;
             }
         }
         self.ctl.cv.notify_all();
@@ -680,7 +759,7 @@ impl World {
                 let _ = tx.send(());
             }
             for (_, flag) in st.drop_parked.iter_mut() {
-                *flag = true;
+                flag.1 = true;
             }
         }
         self.ctl.cv.notify_all();
@@ -729,7 +808,8 @@ pub fn run(args: &Args) {
 
 fn runtime() -> tokio::runtime::Runtime {
     tokio::runtime::Builder::new_multi_thread()
-        .worker_threads(2)
+        // stream() calls blocked on the counter mutex block their worker thread
+        .worker_threads(8)
         .enable_all()
         .build()
         .expect("runtime")
@@ -769,9 +849,9 @@ fn compare(st: &Value, obs: &Obs) -> Result<(), String> {
     for (h, (cname, val)) in &obs.live {
         let want_c = st["hctr"][h].as_str().unwrap_or("?");
         let want_v = st["ctr"][want_c].as_u64().unwrap_or(u64::MAX);
-        if want_c != cname || want_v != *val as u64 {
+        if want_c != cname || Some(want_v) != val.map(|v| v as u64) {
             return Err(format!(
-                "counter behind handle {h}: specification {want_c}={want_v}, implementation {cname}={val}"
+                "counter behind handle {h}: specification {want_c}={want_v}, implementation {cname}={val:?}"
             ));
         }
     }
@@ -790,10 +870,19 @@ fn compare(st: &Value, obs: &Obs) -> Result<(), String> {
             }
             let want_c = st["senders"]["ctr"].as_str().unwrap_or("?");
             let want_v = st["senders"]["val"].as_i64().unwrap_or(-2);
-            let (got_c, got_v) = match entry {
-                None => ("none".to_string(), -1),
-                Some((c, v)) => (c.clone(), *v as i64),
+            let want_locked = st["senders"]["locked"].as_bool().unwrap_or(false);
+            let (got_c, got_v, got_locked) = match entry {
+                None => ("none".to_string(), -1, false),
+                Some((c, Some(v))) => (c.clone(), *v as i64, false),
+                Some((c, None)) => (c.clone(), want_v, true),
             };
+            if want_locked != got_locked {
+                return Err(format!(
+                    "mutex of the counter in the senders entry: specification {}, implementation {}",
+                    if want_locked { "held by the drop in flight" } else { "free" },
+                    if got_locked { "held" } else { "free" }
+                ));
+            }
             if want_c != got_c || want_v != got_v {
                 return Err(format!(
                     "senders entry: specification {want_c}={want_v}, implementation {got_c}={got_v}"
@@ -850,7 +939,6 @@ fn replay(args: &Args) {
         for b in &behaviours {
             out.eval();
             let steps = b["steps"].as_array().cloned().unwrap_or_default();
-            let split_drop = b["defects"]["split_drop"].as_bool().unwrap_or(false);
             let key: Vec<String> = steps
                 .iter()
                 .map(|s| format!("{}({}{})", s["a"].as_str().unwrap_or(""), s["p"].as_str().unwrap_or(""), s["k"].as_str().unwrap_or("")))
@@ -863,7 +951,7 @@ fn replay(args: &Args) {
                 let p = s["p"].as_str().unwrap_or("");
                 let k = s["k"].as_str().unwrap_or("");
                 out.count(a);
-                let r = w.apply(a, p, k, split_drop).await;
+                let r = w.apply(a, p, k).await;
                 let obs = w.observe();
                 w.check_backed(&obs);
                 if i + 1 == steps.len() {
@@ -878,13 +966,26 @@ fn replay(args: &Args) {
                     break;
                 }
             }
+            let mut continued = Vec::new();
+            if let Some((_, detail)) = &diverged
+                && !detail.contains("stuck waiting")
+            {
+                // where specification and code part ways the code is driven on by itself (calls
+                // first, the manager next, drops in flight last) to see what the difference
+                // means for the property
+                continued = run_out(&mut w).await;
+            }
             let failures = std::mem::take(&mut w.property_failures);
             w.shutdown().await;
             let mut seen = BTreeSet::new();
             for (sig, detail) in failures {
                 if seen.insert(sig.clone()) {
                     out.count(&format!("property:{sig}"));
-                    out.violation("C29", &sig, format!("{detail}; schedule: {}", key.join(" > ")), b.clone());
+                    let mut schedule = key.join(" > ");
+                    if !continued.is_empty() {
+                        schedule = format!("(specification up to the disagreement) then on the code: {}", continued.join(" > "));
+                    }
+                    out.violation("C29", &sig, format!("{detail}; schedule: {schedule}"), b.clone());
                 }
             }
             if let Some((a, detail)) = diverged {
@@ -904,6 +1005,32 @@ fn replay(args: &Args) {
     out.write(args);
 }
 
+/// Drives the real code from wherever it stands to the end of all running calls and drops:
+/// stream() calls first, the manager's mailbox next, drops in flight last.
+async fn run_out(w: &mut World) -> Vec<String> {
+    let mut taken = Vec::new();
+    for _ in 0..100 {
+        let moves = enabled_moves(w, 0);
+        let rank = |m: &Move| match m.a {
+            "ReadSenders" => 0,
+            "CloneGuard" | "AcquireWrite" | "ResumeRead" | "ResumeWrite" | "CallSubscribe" | "InsertSenders" => 1,
+            "ActorStep" => 2,
+            "SendUnsub" => 3,
+            _ => 9,
+        };
+        let Some(m) = moves.iter().filter(|m| rank(m) < 9).min_by_key(|m| rank(m)).cloned() else {
+            break;
+        };
+        if w.apply(m.a, &m.p, &m.k).await.is_err() {
+            break;
+        }
+        taken.push(format!("{}({}{})", m.a, m.p, m.k));
+        let obs = w.observe();
+        w.check_backed(&obs);
+    }
+    taken
+}
+
 // ------------------------------------------------------------------------------------------
 // record: seeded random schedules on the real code
 
@@ -914,11 +1041,14 @@ struct Move {
     k: String,
 }
 
-fn enabled_moves(w: &mut World, split_drop: bool, max_cancels: usize) -> Vec<Move> {
+fn enabled_moves(w: &mut World, max_cancels: usize) -> Vec<Move> {
     let obs = w.observe();
     let cancels_left = max_cancels.saturating_sub(w.cancelled.len());
     let mut moves = Vec::new();
-    let reader_parked = obs.pc.values().any(|v| v == "atA");
+    // calls that hold the read lock of senders across a point / while blocked on the counter mutex
+    let reader_parked = obs.pc.values().any(|v| v == "atA" || v == "mutexR");
+    // a drop sits between its decrement to zero and its Unsubscribe
+    let drop_in_flight = obs.hst.values().any(|v| v == "fetched");
     let write_locked = obs.senders.is_err();
     for (p, pc) in &obs.pc {
         let m = |a: &'static str| Move { a, p: p.clone(), k: String::new() };
@@ -927,6 +1057,8 @@ fn enabled_moves(w: &mut World, split_drop: bool, max_cancels: usize) -> Vec<Mov
             "idle" if !write_locked => moves.push(m("ReadSenders")),
             "atA" => moves.push(m("CloneGuard")),
             "atW" if !write_locked && !reader_parked => moves.push(m("AcquireWrite")),
+            "mutexR" if !drop_in_flight => moves.push(m("ResumeRead")),
+            "mutexW" if !drop_in_flight => moves.push(m("ResumeWrite")),
             "atB" => moves.push(m("CallSubscribe")),
             "atC" if !reader_parked => moves.push(m("InsertSenders")),
             _ => {}
@@ -947,7 +1079,7 @@ fn enabled_moves(w: &mut World, split_drop: bool, max_cancels: usize) -> Vec<Mov
                     moves.push(Move { a: "CloneHandle", p: h.clone(), k: k.clone() });
                 }
             }
-            "fetched" if split_drop => moves.push(Move { a: "SendUnsub", p: h.clone(), k: String::new() }),
+            "fetched" => moves.push(Move { a: "SendUnsub", p: h.clone(), k: String::new() }),
             _ => {}
         }
     }
@@ -965,7 +1097,6 @@ fn record(args: &Args) {
     let nprocs = args.extra_usize("procs", 3);
     let nclones = args.extra_usize("clones", 2);
     let max_cancels = args.extra_usize("cancels", 3);
-    let split_drop = args.extra.get("split_drop").map(|v| v == "true").unwrap_or(false);
     let rt = runtime();
     let ctl = new_ctl();
     rt.block_on(async {
@@ -988,7 +1119,7 @@ fn record(args: &Args) {
             }
             .min(max_cancels);
             for _ in 0..200 {
-                let moves = enabled_moves(&mut w, split_drop, max_cancels);
+                let moves = enabled_moves(&mut w, max_cancels);
                 if moves.is_empty() {
                     break;
                 }
@@ -1012,7 +1143,7 @@ fn record(args: &Args) {
                 }
                 let m = moves[idx].clone();
                 out.count(m.a);
-                if let Err(e) = w.apply(m.a, &m.p, &m.k, split_drop).await {
+                if let Err(e) = w.apply(m.a, &m.p, &m.k).await {
                     stuck = Some(format!("{}({}{}): {e}", m.a, m.p, m.k));
                     break;
                 }
